@@ -1,7 +1,8 @@
 (* C14 — Admission soundness: an Experiment admitted by the defaulting + validating webhooks can actually run.
    Only theorem statements (closed by [exact]) and their assumption audit.  The model is Model/Validator.v;
    [admitted en e0] := validate en (set_default e0) = Ok []  (no field.Error after defaulting).
-   The name rule in the model is the ANCHORED regexp (planned fix F7); the unanchored rule of the pinned tree is refuted below. *)
+   The name rule in the model is the ANCHORED regexp (fix F7); the unanchored rule of the pinned tree is refuted below.
+   The model contains the repaired rules 59 (duplicate parameter name, F8b) and 60 (unreferenced parameter, F8). *)
 From KV Require Import Base.Prelude Base.StrFind Base.DnsName Model.Validator Proofs.ValidatorP Proofs.C14Examples Corr.C14 Proofs.C14Monitor.
 Open Scope string_scope.
 Open Scope list_scope.
@@ -28,29 +29,49 @@ Theorem C14_derefs : forall en e0, admitted en e0 -> derefs_ok (set_default e0) 
 Proof. exact admitted_derefs. Qed.
 Print Assumptions C14_derefs.
 
+(* Repaired defects duplicate-parameter-name (F8b, rule 59) and unreferenced-parameter (F8, rule 60): an admitted experiment has
+   distinct parameter names, and every parameter is the reference of a trial parameter that consumes an assignment (one whose
+   reference is not of the trial-metadata form).  Before the repairs both statements were refuted by admitted experiments. *)
+Theorem C14_parameters_distinct : forall en e0, admitted en e0 -> NoDup (map p_name (e_params e0)).
+Proof. exact admitted_params_distinct. Qed.
+Print Assumptions C14_parameters_distinct.
+
+Theorem C14_parameters_referenced : forall en e0, admitted en e0 ->
+  forall t ps, e_template (set_default e0) = Some t -> t_params t = Some ps ->
+  forall n, In n (map p_name (e_params e0)) -> exists p, In p ps /\ non_meta p = true /\ tp_ref p = n.
+Proof. exact admitted_params_referenced. Qed.
+Print Assumptions C14_parameters_referenced.
+
 (* FULL statement (not proved): admitted -> for every assignment of feasible values, GetRunSpecWithHyperParameters returns a well-formed
-   run object.  PROVED PART: on [runnable] experiments (hyperparameter experiment; parameter names distinct; every parameter referenced by a
-   non-meta trial parameter; trial-metadata references resolvable; a ConfigMap template is YAML before substitution) and for every
-   assignment giving one value to each parameter, applyParameters succeeds: template fetched, every reference resolved, count check
-   passed.  NOT proved: that the substituted text decodes (YAML/JSON) - observed by the harness on real instantiations. *)
+   run object.  PROVED PART: on [runnable] experiments (hyperparameter experiment; trial-metadata references resolvable; a ConfigMap
+   template is YAML before substitution) and for every assignment giving one value to each parameter, applyParameters succeeds:
+   template fetched, every reference resolved, count check passed.  Distinct parameter names and "every parameter referenced" are
+   no longer hypotheses: they follow from admission (rules 59 and 60).
+   NOT proved: that the substituted text decodes (YAML/JSON) - observed by the harness on real instantiations. *)
 Theorem C14_template_runs_partial : forall en e0 asg,
   admitted en e0 -> runnable en (set_default e0) -> assignment_for (set_default e0) asg ->
   exists m, apply_parameters en (set_default e0) asg = Ok m.
 Proof. exact template_runs. Qed.
 Print Assumptions C14_template_runs_partial.
 
-(* Outside [runnable] the full statement is false for the faithful model (and for the code: KNOWN-FINDING keys
-   unreferenced-parameter, duplicate-parameter-name, unresolvable-trial-metadata). *)
-Theorem C14_template_runs_refuted : exists en e0 asg,
-  admitted en e0 /\ assignment_for (set_default e0) asg /\ apply_parameters en (set_default e0) asg = Err 5%nat.
-Proof. exact f8_refuted. Qed.
-Print Assumptions C14_template_runs_refuted.
+(* The former counterexamples (corpus of KNOWN_FINDINGS F8 / F8b) are rejected by the repaired validator - and would indeed fail
+   the generator's count check; so is a parameter whose name has the form of a trial-metadata reference. *)
+Example C14_unreferenced_rejected :
+  validate ex_env (set_default f8_exp) = Ok [(60%nat, 2%nat)] /\
+  apply_parameters ex_env (set_default f8_exp) [("lr", "3"); ("mom", "0.9"); ("extra", "1")] = Err 5%nat.
+Proof. exact (conj f8_rejected f8_would_fail). Qed.
 
-Theorem C14_template_runs_refuted_duplicate : exists en e0 asg,
-  admitted en e0 /\ assignment_for (set_default e0) asg /\ apply_parameters en (set_default e0) asg = Err 5%nat.
-Proof. exact f8b_refuted. Qed.
-Print Assumptions C14_template_runs_refuted_duplicate.
+Example C14_duplicate_rejected :
+  validate ex_env (set_default f8b_exp) = Ok [(59%nat, 2%nat)] /\
+  apply_parameters ex_env (set_default f8b_exp) [("lr", "3"); ("mom", "0.9"); ("lr", "1")] = Err 5%nat.
+Proof. exact (conj f8b_rejected f8b_would_fail). Qed.
 
+Example C14_metadata_named_parameter_rejected : validate ex_env (set_default f8c_key_exp) = Ok [(60%nat, 1%nat)].
+Proof. exact f8c_key_rejected. Qed.
+
+(* Outside [runnable] the full statement is still false for the faithful model (and for the code: KNOWN-FINDING key
+   unresolvable-trial-metadata: a reference to a label/annotation the template does not carry is admitted; the repair would change
+   the results of the existing TestValidateTrialTemplate, which pins that acceptance). *)
 Theorem C14_template_runs_refuted_metadata : exists en e0 asg,
   admitted en e0 /\ assignment_for (set_default e0) asg /\ apply_parameters en (set_default e0) asg = Err 4%nat.
 Proof. exact f8c_refuted. Qed.
